@@ -198,7 +198,7 @@ fn main() {
                 "p_limit_f": p_limit, "p_market_f": p_market, "p_cancel_f": p_cancel, "rate_f": rate,
                 "vol": rng.gen_range(1..40u32), "tick_lo": tick_lo, "tick_hi": tick_lo + rng.gen_range(2..40u32), "vol_lo": 1 + j as u32, "vol_hi": 10 + 3 * j as u32,
                 "sigma": *pick(&mut rng, &[0.5, 1.0, 2.0]), "demand": *pick(&mut rng, &[2.0, 6.0]), "order_ratio": order_ratio,
-                "order_ratio_one": order_ratio >= 1.0, "order_ratio_zero": order_ratio <= 0.0, "saturated": false, "multi": multi}));
+                "limit_certain": order_ratio >= 1.0, "order_ratio_zero": order_ratio <= 0.0, "saturated": false, "multi": multi}));
         }
         let ticks: Vec<u32> = if multi { vec![tick, tick] } else { vec![tick] };
         let cfg = json!({"kind": if multi { "menv" } else { "env" }, "ticks": ticks, "step": step, "trading": true, "levels": 10, "t0": 0,
